@@ -8,9 +8,25 @@ import (
 	"encoding/binary"
 	"fmt"
 	"os"
+	"regexp"
+	"runtime/pprof"
 	"strings"
 	"testing"
+	"time"
 )
+
+// vfE4CPUProfiling: is a CPU profile running in this process? (StartCPUProfile fails iff one is.)
+func vfE4CPUProfiling() bool {
+	if err := pprof.StartCPUProfile(vfE4Discard{}); err != nil {
+		return true
+	}
+	pprof.StopCPUProfile()
+	return false
+}
+
+type vfE4Discard struct{}
+
+func (vfE4Discard) Write(b []byte) (int, error) { return len(b), nil }
 
 const vfE4Bystander = "hA:4151"
 
@@ -226,6 +242,101 @@ func vfE4GenTrailing(r *vfRand, hist map[string]int) ([]byte, []string) {
 	return buf.Bytes(), toks
 }
 
+// vfE4GenIdentified (audit C32): a stream that gets PAST IDENTIFY (valid document, exact size) and is hostile
+// afterwards: the bad-name matrix on REGISTER / UNREGISTER (so `getTopicChan` is reached: E_BAD_TOPIC /
+// E_BAD_CHANNEL), re-IDENTIFY in several shapes, unknown / mis-cased commands, over-long lines, argument counts —
+// after 0–3 valid commands (whose registrations must be gone after the error).
+func vfE4GenIdentified(r *vfRand, hist map[string]int) ([]byte, []string) {
+	expect := ""
+	var buf bytes.Buffer
+	buf.WriteString("  V1IDENTIFY\n")
+	body := vfE4IdentifyBody([]byte(vfE4Pick(r, []string{"hX", "hY", "hA"})), []byte("nX"), []byte("v9"), 1+r.Intn(3), 4151+r.Intn(2))
+	binary.Write(&buf, binary.BigEndian, int32(len(body)))
+	buf.Write(body)
+	for n := r.Intn(4); n > 0; n-- {
+		buf.WriteString(vfE4Pick(r, []string{"PING\n", "REGISTER t c\n", "REGISTER x1\n", "UNREGISTER t c\n", "REGISTER e#ephemeral d#ephemeral\n",
+			"UNREGISTER e#ephemeral d#ephemeral\n", "UNREGISTER t\n", " REGISTER zz \n"}))
+	}
+	cmd := vfE4Pick(r, []string{"REGISTER", "UNREGISTER"})
+	k := r.Intn(20)
+	switch {
+	case k < 7:
+		buf.WriteString(cmd + " " + vfE4Pick(r, vfE4BadNames[1:]))
+		if r.Intn(2) == 0 {
+			buf.WriteString(" " + vfE4Pick(r, vfE4GoodNames))
+		}
+		buf.WriteString("\n")
+		expect = vfE4ExpectNameErr(buf.Bytes())
+		hist["ident:bad-topic"]++
+	case k < 12:
+		buf.WriteString(cmd + " " + vfE4Pick(r, vfE4GoodNames) + " " + vfE4Pick(r, vfE4BadNames[1:]) + "\n")
+		expect = vfE4ExpectNameErr(buf.Bytes())
+		hist["ident:bad-channel"]++
+	case k < 15:
+		// re-IDENTIFY shapes: bare, with size+body, with a negative size, with arguments, padded, truncated size
+		shape := r.Intn(6)
+		switch shape {
+		case 0:
+			buf.WriteString("IDENTIFY\n")
+		case 1:
+			buf.WriteString("IDENTIFY\n")
+			binary.Write(&buf, binary.BigEndian, int32(len(body)))
+			buf.Write(body)
+		case 2:
+			buf.WriteString("IDENTIFY\n\xff\xff\xff\xff")
+		case 3:
+			buf.WriteString("IDENTIFY again and again\n")
+		case 4:
+			buf.WriteString("\xc2\xa0IDENTIFY \t\n\x00\x00\x00\x02{}")
+		default:
+			buf.WriteString("IDENTIFY\n\x00\x00")
+		}
+		expect = "E_INVALID"
+		hist[fmt.Sprintf("ident:re-identify-%d", shape)]++
+	case k < 17:
+		buf.WriteString(vfE4Pick(r, []string{"register t", "Unregister t c", "PINGX", "PUB t", "SUB t c", "NOP", "\x00", "REGISTER\tt c", "IDENTIFY2", ""}) + "\n")
+		hist["ident:unknown"]++
+	case k < 18:
+		buf.WriteString(cmd + " " + strings.Repeat("A", 1000+r.Intn(70000)) + "\n")
+		hist["ident:long-name"]++
+	case k < 19:
+		buf.WriteString(vfE4Pick(r, []string{"REGISTER", "UNREGISTER", "REGISTER ", "UNREGISTER  c", "REGISTER  c"}) + "\n")
+		hist["ident:argcount"]++
+	default:
+		buf.WriteString(strings.Repeat("B", 5000+r.Intn(100000)) + vfE4Pick(r, []string{"\n", "", " t\n"}))
+		hist["ident:long-line"]++
+	}
+	if r.Intn(2) == 0 {
+		buf.WriteString("PING\nREGISTER after c\n") // never executed: every error is fatal
+	}
+	hist["stream:identified-hostile"]++
+	if expect != "" {
+		// what the protocol description demands as the LAST reply, judged by the generator itself (independent of the
+		// model and of the package's own name check): python oracle `documented-error-missing`
+		return buf.Bytes(), []string{"expect=" + expect}
+	}
+	return buf.Bytes(), nil
+}
+
+var vfE4NameRe = regexp.MustCompile(`^[.a-zA-Z0-9_-]+(#ephemeral)?$`)
+
+// vfE4ExpectNameErr: the error the LAST line of the stream (REGISTER/UNREGISTER <topic> [<channel>] …) must get
+func vfE4ExpectNameErr(stream []byte) string {
+	lines := strings.Split(strings.TrimSuffix(string(stream), "\n"), "\n")
+	f := strings.Split(lines[len(lines)-1], " ")
+	ok := func(n string) bool { return len(n) >= 1 && len(n) <= 64 && vfE4NameRe.MatchString(n) }
+	if len(f) < 2 || !ok(f[1]) {
+		return "E_BAD_TOPIC"
+	}
+	if len(f) >= 3 && f[2] != "" && !ok(f[2]) {
+		return "E_BAD_CHANNEL"
+	}
+	return "" // e.g. the bad name contained a blank and fell apart into two good ones
+}
+
+// vfE4MagicPins: the magic is pinned by behaviour (the textual tie cannot tell "  V1" from " V1")
+var vfE4MagicPins = []string{"  V1", " V1", "  V2", "  v1", " V1 ", "V1  ", "\tV1 ", "  V1\n", "   V1"}
+
 func vfE4GenStream(r *vfRand, noneg bool, hist map[string]int) ([]byte, []string) {
 	var buf bytes.Buffer
 	var dec []string
@@ -350,7 +461,7 @@ func TestVerifE4Hostile(t *testing.T) {
 	if variant == "" {
 		variant = "fixed"
 	}
-	env := vfE4Start(false, []string{"t", "e#ephemeral", "x1", "zz"})
+	env := vfE4Start(os.Getenv("VERIF_INPROC") != "1", []string{"t", "e#ephemeral", "x1", "zz"}) // queries through the real listener
 	env.plainID = true // the bystander is well-behaved: the attack comes from the spoof / stream ops
 	defer env.Stop()
 	out := vfOpen(fmt.Sprintf("hostile_%d", shard))
@@ -367,13 +478,19 @@ func TestVerifE4Hostile(t *testing.T) {
 			id++
 		}
 		var line string
-		if r.Intn(4) == 0 {
+		pin := i - 1 // the first cases of every shard pin the magic
+		if r.Intn(4) == 0 && !(pin >= 0 && pin < len(vfE4MagicPins)) {
 			line = vfE4GenSpoof(r, hist, env.vnow, id, by)
 		} else {
 			var data []byte
 			var toks []string
-			if r.Intn(5) == 0 {
+			if pin >= 0 && pin < len(vfE4MagicPins) {
+				data = []byte(vfE4MagicPins[pin] + "PING\nPING\n")
+				hist["magic:pinned"]++
+			} else if r.Intn(5) == 0 {
 				data, toks = vfE4GenTrailing(r, hist)
+			} else if r.Intn(2) == 0 {
+				data, toks = vfE4GenIdentified(r, hist)
 			} else {
 				data, _ = vfE4GenStream(r, noneg, hist)
 			}
@@ -408,7 +525,9 @@ func TestVerifE4Hostile(t *testing.T) {
 // TestVerifE4HttpSweep: every route x method x argument subset (and value class).
 func TestVerifE4HttpSweep(t *testing.T) {
 	full := os.Getenv("VERIF_FULL") == "1"
-	env := vfE4Start(os.Getenv("VERIF_REALHTTP") == "1", []string{"t", "e#ephemeral", "new1", "zz"})
+	// every request goes through the daemon's REAL listener and the httpServer instance `Main` created
+	// (VERIF_INPROC=1: ServeHTTP on a second server object, for comparison only)
+	env := vfE4Start(os.Getenv("VERIF_INPROC") != "1", []string{"t", "e#ephemeral", "new1", "zz"})
 	defer env.Stop()
 	out := vfOpen("sweep")
 	defer out.Close()
@@ -429,7 +548,7 @@ func TestVerifE4HttpSweep(t *testing.T) {
 	}
 	topics := []string{"_", "t", "new1", "e#ephemeral", "bad name!", "", "*", strings.Repeat("n", 65)}
 	chans := []string{"_", "c", "d#ephemeral", "bad name", "", "*"}
-	nodes := []string{"_", vfE4Bystander, "nobody:1", ""}
+	nodes := []string{"_", vfE4Bystander, "nobody:1", "", "*"}
 	id := 1
 	count := 0
 	emit := func(m, p, bad, tp, ch, nd string) {
@@ -487,6 +606,125 @@ func TestVerifE4HttpSweep(t *testing.T) {
 			emit(m, p, "0", "t", "c", vfE4Bystander)
 		}
 	}
+	// ---- non-canonical paths (audit C11): httprouter cleans / case-folds / repairs the trailing slash and REDIRECTS
+	// (301 GET, 307 other methods with a tree) instead of answering 404; never a handler, never an effect.
+	cls := map[string]int{}
+	var paths []string
+	seenP := map[string]bool{}
+	for _, a := range api {
+		if !seenP[a.p] {
+			seenP[a.p] = true
+			paths = append(paths, a.p)
+		}
+	}
+	paths = append(paths, "/debug/pprof", "/debug/pprof/cmdline", "/debug/pprof/symbol", "/debug/pprof/profile", "/debug/pprof/heap",
+		"/debug/pprof/goroutine", "/debug/pprof/block", "/debug/pprof/threadcreate")
+	title := func(p string) string {
+		b := []byte(p)
+		for i := 1; i < len(b); i++ {
+			if b[i-1] == '/' && b[i] >= 'a' && b[i] <= 'z' {
+				b[i] -= 32
+			}
+		}
+		return string(b)
+	}
+	variant := func(p string) [][2]string {
+		return [][2]string{{"trailing-slash", p + "/"}, {"upper", strings.ToUpper(p)}, {"title", title(p)}, {"double-slash", "/" + p},
+			{"inner-double-slash", strings.Replace(p[1:], "/", "//", 1)}, {"dot", "/." + p}, {"dotdot", "/x/.." + p}, {"final-dot", p + "/."},
+			{"two-trailing", p + "//"}, {"upper-trailing", strings.ToUpper(p) + "/"}, {"dotdot-past-root", "/../.." + p}, {"suffix", p + "x"},
+			{"final-dotdot", p + "/y/.."}}
+	}
+	vmethods := []string{"GET", "POST", "PUT", "OPTIONS", "HEAD", "DELETE"}
+	k := 0
+	for _, p := range paths {
+		for _, v := range variant(p) {
+			vp := v[1]
+			if !strings.HasPrefix(vp, "/") {
+				vp = "/" + vp
+			}
+			for _, m := range vmethods {
+				k++
+				if !full && m != "GET" && m != "POST" && k%3 != 0 {
+					continue // quick: the methods without a tree on every third variant
+				}
+				cls["variant:"+v[0]]++
+				emit(m, vp, "0", "t", "c", vfE4Bystander)
+			}
+		}
+	}
+	for _, p := range []string{"/topic/", "/channel/", "/debug/", "/debug/pprof/", "/topic", "/channel", "//", "/.", "/..", "/./", "/lookup/../lookup",
+		"/topic/../topic/delete", "/TOPIC/DELETE/", "/Debug/Pprof/Heap/", "/lookup/lookup", "/topics/x", "/nodes//", "/p", "/pin", "/pingg", "/debug/ppro", "/debug/pprof/hea"} {
+		for _, m := range vmethods {
+			cls["variant:prefix-or-near-miss"]++
+			emit(m, p, "0", "t", "c", vfE4Bystander)
+		}
+	}
+	// `OPTIONS *` (other methods with `*` are refused by net/http itself, 400, before any handler)
+	if env.realHTTP { // (a request line `OPTIONS *` cannot be built for the in-process comparison run)
+		cls["variant:star"]++
+		emit("OPTIONS", "*", "0", "t", "c", vfE4Bystander)
+	}
+	// ---- pprof rows with odd arguments: the answer is one of a SET (driver = acceptor, `obs=`); direct oracle on the
+	// text of every non-200 answer. (`profile` without a valid `seconds` would run for 30 s: not sent.)
+	pp := func(m, p, q string, bg bool) {
+		if count%60 == 0 {
+			out.Case("reset", env.Exec("reset"))
+			vfE4SetupBystander(env, out, id)
+			id++
+		}
+		count++
+		var done chan int
+		if bg {
+			// another CPU profile is running while the request is made: the documented pprof-busy case
+			done = make(chan int, 1)
+			go func() {
+				c, _ := env.httpDo("GET", "/debug/pprof/profile", "seconds=1")
+				done <- c
+			}()
+			for i := 0; i < 300 && !vfE4CPUProfiling(); i++ {
+				time.Sleep(time.Millisecond)
+			}
+		}
+		line := fmt.Sprintf("%d raw %s %s 0 %s %s %s", env.vnow, m, p, arg("t"), arg("c"), arg(vfE4Bystander))
+		if q != "" {
+			line += " q=" + vfHex([]byte(q))
+		}
+		line, res := env.ExecX(line)
+		out.Case(line, res)
+		st := strings.Fields(res)[0]
+		cls["pprof:"+p[len("/debug/pprof"):]+"?"+q+":"+st]++
+		body := strings.TrimSpace(string(env.lastBody))
+		if len(body) > 120 {
+			body = body[:120]
+		}
+		switch {
+		case st == "status=200" || m != "GET":
+		case st == "status=400" && strings.Contains(q, "seconds=") && (strings.Contains(body, "seconds")):
+		case st == "status=500" && p == "/debug/pprof/profile" && bg && strings.HasPrefix(body, "Could not enable CPU profiling"):
+		default:
+			fmt.Printf("E4-ORACLE pprof-undocumented-answer %s %s?%s -> %s %q | %s\n", m, p, q, st, body, line)
+		}
+		if bg {
+			cls[fmt.Sprintf("pprof:background-profile:%d", <-done)]++
+		}
+	}
+	oddq := []string{"", "seconds=x", "seconds=0", "seconds=-1", "seconds=", "seconds=99999999999999999999", "seconds=1&debug=1", "debug=1", "debug=2",
+		"debug=x", "gc=1", "gc=x&debug=1", "%zz", "seconds=x&seconds=1"}
+	for _, p := range []string{"/debug/pprof/heap", "/debug/pprof/goroutine", "/debug/pprof/block", "/debug/pprof/threadcreate"} {
+		for _, q := range oddq {
+			pp("GET", p, q, false)
+		}
+	}
+	for _, p := range []string{"/debug/pprof/cmdline", "/debug/pprof/symbol"} {
+		for _, q := range []string{"", "seconds=x", "debug=1", "0x1"} {
+			pp("GET", p, q, false)
+		}
+	}
+	pp("POST", "/debug/pprof/symbol", "", false)
+	pp("GET", "/debug/pprof/heap", "seconds=1", false)    // a real delta profile (1 s)
+	pp("GET", "/debug/pprof/profile", "seconds=1", true)  // while another CPU profile runs: 500 is the documented answer
+	pp("GET", "/debug/pprof/profile", "seconds=1", false) // undisturbed: 200
+	vfE4PrintHist("sweep-classes", cls)
 	fmt.Printf("E4-SWEEP requests=%d lines=%d\n", count, out.N)
 	vfE4PrintHist("sweep", env.hist)
 }
